@@ -529,6 +529,12 @@ func propsOfMismatch0(m Mismatch, ev map[string]any) []string {
 		return []string{"C20"}
 	case "outcome.malformed":
 		return []string{"C20"}
+	case "call.panicked":
+		ps := []string{"C20", docProp()}
+		if nm, _ := ev["nm"].(int); nm > 0 {
+			ps = append(ps, "C15", "C17")
+		}
+		return ps
 	case "matcher.unnamed":
 		return []string{"C17"}
 	case "format.unstable":
